@@ -13,7 +13,7 @@ def tableMismatch (k : KState) : Option String :=
     let real := k.keyOutputs[li]?.getD []
     -- every serialised row-0 position
     (tbl.filter (·.1.1 == 0)).findSome? fun (c, a) =>
-      let mine := keyOutputs k.customs c.2 a
+      let mine := withOverrides k.overrides (keyOutputs k.customs c.2 a)
       let theirs := ((real.find? (·.1 == c.2)).map (·.2)).getD []
       if mine == theirs then none
       else some s!"layer {li} key {c.2}: parser table {theirs} model {mine}"
@@ -27,7 +27,7 @@ def withModelTable (k : KState) : KState :=
   { k with keyOutputs := (List.range layers.length).map fun li =>
       let tbl := layers[li]!
       let real := k.keyOutputs[li]?.getD []
-      let mine := (tbl.filter (·.1.1 == 0)).map fun (c, a) => (c.2, keyOutputs k.customs c.2 a)
+      let mine := (tbl.filter (·.1.1 == 0)).map fun (c, a) => (c.2, withOverrides k.overrides (keyOutputs k.customs c.2 a))
       mine ++ real.filter fun e => !(mine.any (·.1 == e.1)) }
 
 def modelOut (c : Kan.Case) : String :=
@@ -118,7 +118,7 @@ def oracle (k : KState) (hist : List KEv) (items : List TItem) : String :=
             if simple && heldLongEnough && !hasUnmod k then
               match (k.layout.cfg.layers[0]!).find? (·.1 == (0, y)) with
               | some (_, a) =>
-                let outs := keyOutputs k.customs y a
+                let outs := withOverrides k.overrides (keyOutputs k.customs y a)
                 match (if outs.any (fun c => k.ignoreMin ≤ c && c ≤ k.ignoreMax) then none else outs.reverse.find? (down.contains ·)) with
                 | some want =>
                   if emitted == [s!"d{want}"] then go rest later vt down phys lastRel
